@@ -93,7 +93,7 @@ func titleProvenance(p *core.Program, v ssa.Value, seen map[ssa.Value]bool) stri
 
 // C15: title comes from the page, is never invented, and is not repeated in content.
 func C15(p *core.Program, r *core.Report) {
-	r.Explanation = "A1 (candidate order): ensureTitleInitialized appends the markup title (when non-empty) before the document-title heuristic on every path and ExtractTitle returns element 0; Apply stores exactly that as Result.Title. A2 (provenance): every value returned by getDocumentTitle is built from InnerText(<title>) / InnerText(<h1>) by slicing, TrimSpace, Fields+Join(\" \") and ReplaceAllString(_, \"$1\") only - no concatenation with non-blank literals, no other text source; the length gate is counted in characters (RuneCountInString) with the bounds 15 and 150. A3 (the title is its own candidate): processPotentialTitle inserts the normalised title it looked up, on every path that gets past the early returns, and the block side (Process) normalises with the same chain of operations, so a block equal to the title can match. A4 (suppression): a matching block gets label Title, ApplyToModel copies it to the block's Text elements and Text.GenerateOutput returns \"\" before anything else when the label is present. A1 also: a page that opted out gets no markup title. A2 also: domutil.InnerText changes nothing but whitespace (collapse, blanks before punctuation, line-break markers): its result is the reviewed chain over the collected text. A3 also: every text block is compared with the potential titles (no iteration of the title filter ends before the whole-text lookup)."
+	r.Explanation = "A1 (candidate order): ensureTitleInitialized appends the markup title (when non-empty) before the document-title heuristic on every path and ExtractTitle returns element 0; Apply stores exactly that as Result.Title. A2 (provenance): every value returned by getDocumentTitle is built from InnerText(<title>) / InnerText(<h1>) by slicing, TrimSpace, Fields+Join(\" \") and ReplaceAllString(_, \"$1\") only - no concatenation with non-blank literals, no other text source; the length gate is counted in characters (RuneCountInString) with the bounds 15 and 150. A3 (the title is its own candidate): processPotentialTitle inserts the normalised title it looked up, on every path that gets past the early returns, and the block side (Process) normalises with the same chain of operations, so a block equal to the title can match. A4 (suppression): a matching block gets label Title, ApplyToModel copies it to the block's Text elements and Text.GenerateOutput returns \"\" before anything else when the label is present. A1 also: a page that opted out gets no markup title. A2 also: domutil.InnerText changes nothing but whitespace (collapse, blanks before punctuation, line-break markers): its result is the reviewed chain over the collected text. A3 also: every text block is compared with the potential titles (no iteration of the title filter ends before the whole-text lookup). A5: MarkupInfo.Title is the unchanged answer of Parser.Title(), the very call Result.Title is taken from."
 	r.NotCovered = "the separator heuristics themselves (which part of a long <title> is chosen), the word counter, titles repeated with different punctuation beyond the two documented lookups."
 
 	c := core.NewCanon(p)
